@@ -225,11 +225,23 @@ def body_chain(case):
         bad = np.abs(S32[sel] - S64[sel]) > 2e-3 * np.abs(S64[sel]) + 1e-300
         # (fields far down a Gaussian tail amplify the input rounding by the depth of the tail: only events whose SNR is
         # within 1e-6 of the batch's largest are compared in value)
-        big = np.abs(S64[sel]) >= 1e-6 * (np.max(np.abs(S64[sel])) if sel.any() else 0.0)
+        # ... and above 1e-20 in absolute terms (a typical detectable SNR is 1..100; single-event batches are their own maximum)
+        big = (np.abs(S64[sel]) >= 1e-6 * (np.max(np.abs(S64[sel])) if sel.any() else 0.0)) & (np.abs(S64[sel]) >= 1e-20)
         require(not (bad & big).any(), f"float32 event arrays give SNR {S32[sel][bad & big][:3].tolist()}, the same numbers as float64 arrays {S64[sel][bad & big][:3].tolist()} ({what})")
         labels_f32 = True
     else:
         labels_f32 = False
+    # the scalar arguments of the SNR (antenna count, gain, altitude) in narrow numpy dtypes - what indexing an array of
+    # instrument parameters yields: the SNR of the same numbers given as Python numbers
+    sd = case.get("scalar_dtype")
+    if sd and case["nants"] <= np.iinfo(sd).max if sd and sd.startswith(("int", "uint")) else sd:
+        from nuspacesim.simulation.eas_radio.radio_antenna import calculate_snr
+
+        nn = np.dtype(sd).type(case["nants"])
+        with quiet():
+            with cut(f"calculate_snr(Nants as numpy {sd})"):
+                S_n = np.asarray(calculate_snr(F, (float(lo), float(hi)), case["det"], nn, case["gain"]), dtype=np.float64)
+        require(bool(np.all(np.abs(S_n - S) <= 1e-12 * np.abs(S) + 1e-300)), f"SNR with the antenna count {case['nants']} given as numpy {sd}: {S_n[:3].tolist()}, given as a Python int: {S[:3].tolist()} (ratio - 1 = {float(np.max(np.abs(S_n / np.where(S == 0, 1, S) - 1))):.2e})")
     # metamorphic relations with identical random numbers
     kfac = case["kfac"]
     with cut("energy scaled"):
@@ -401,6 +413,7 @@ SUBCHECKS = [
                 "edit_level": st.sampled_from(EDIT_LEVELS),
                 "io_fault": st.booleans(),
                 "f32": st.booleans(),
+                "scalar_dtype": st.sampled_from([None, "int8", "uint8", "int16", "uint16", "int32", "float32", "float16"]),
             }
         ),
         body_chain,
